@@ -378,7 +378,7 @@ func cmdRun(args []string) {
 					// a dead worker: Go fatal errors (out of memory, stack overflow) cannot be recovered in-process
 					msg := fmt.Sprintf("worker for scenario %q died: %v; stderr: %s", j.Name, err, tail(string(se), 1500))
 					mu.Lock()
-					if j.Seq && bytes.Contains(se, []byte("ANNOUNCE ")) {
+					if j.Seq && bytes.Contains(se, []byte("ANNOUNCE ")) && fatalLine(se) != "unknown fatal error" {
 						// sequential checks announce each guarded input: the last one killed the worker
 						in := lastAnnounce(se)
 						results[i] = &result{Scenario: j.Name, Bounds: j.Bounds, Seq: true, Execs: 1, Violations: []violation{{
